@@ -111,10 +111,12 @@ def write_evidence(prop: str, level: str, coverage: Dict[str, Any], assumptions:
 
 # ---------------------------------------------------------------------------
 _WORKER_FN = None
+_WORKER_FN_PATH = None
 
 
 def _init_worker(fn_path):
-    global _WORKER_FN
+    global _WORKER_FN, _WORKER_FN_PATH
+    _WORKER_FN_PATH = fn_path
     modname, fname = fn_path.rsplit(":", 1)
     import importlib
     _WORKER_FN = getattr(importlib.import_module(modname), fname)
@@ -158,6 +160,7 @@ def _run_job(job):
             pass
     r["_job"] = job.get("id") if isinstance(job, dict) else None
     r["_t"] = round(time.time() - t0, 3)
+    r["_fn"] = _WORKER_FN_PATH
     return r
 
 
